@@ -65,7 +65,7 @@ class _Property(Generic[PropType]):
             self.parent = parent
         if not name:
             return
-        if not self.source:
+        if self.source is None:
             self.source = name
         self.name = name
 
@@ -165,7 +165,7 @@ class _PropertyDict(Dict[str, _Property[Any]]):
     def required(self):
         # pylint: disable=no-member
         return [
-            prop.source or name
+            prop.source if prop.source is not None else name
             for name, prop in self.items()
             if prop.required and isinstance(prop.element.default, NotPassed)
         ]
